@@ -101,7 +101,7 @@ func (g *docGen) element(depth int, parentTag string) {
 		ds = append(ds, "display: list-item")
 	}
 	if g.r.P(1, 4) {
-		ds = append(ds, "list-style-type: "+rng.Pick(g.r, "decimal", "lower-roman", "upper-alpha", "disc", "decimal-leading-zero", "cjk-decimal", `"*"`, "symbols(cyclic x y)"))
+		ds = append(ds, "list-style-type: "+rng.Pick(g.r, "decimal", "lower-roman", "upper-alpha", "disc", "decimal-leading-zero", "cjk-decimal", `"*"`, "symbols(cyclic x y)", "Kx", "Kx", "kx"))
 	}
 	if g.r.P(1, 3) {
 		ds = append(ds, "list-style-position: "+rng.Pick(g.r, "inside", "outside"))
@@ -161,7 +161,8 @@ func genDoc(r *rng.R) (string, *docGen) {
 		fmt.Fprintf(&g.body, `<ol id="e%d" class="o" start="%d"><li id="e%d" class="o">x</li><li id="e%d" class="o">y</li></ol>`, g.n-2, start, g.n-1, g.n)
 		g.starts[fmt.Sprintf("e%d", g.n-1)] = start
 	}
-	src := "<html><head><style>\n.o::before, .o::after { content: " + obsContent + " }\n" + g.css.String() + "</style></head><body>" + g.body.String() + "</body></html>"
+	// an author style with a mixed-case name (list-style-type: Kx uses it, kx is undefined -> decimal)
+	src := "<html><head><style>\n@counter-style Kx { system: cyclic; symbols: \"<\" \">\"; suffix: \"~\" }\n.o::before, .o::after { content: " + obsContent + " }\n" + g.css.String() + "</style></head><body>" + g.body.String() + "</body></html>"
 	return src, g
 }
 
@@ -271,7 +272,15 @@ func dotted(vs []int) string {
 func expectedText(cs counters.CounterStyle, e expect, o obs) string {
 	last := func(vs []int) int { return vs[len(vs)-1] }
 	if e.kind == "marker" {
-		return cs.RenderMarker(e.style.GetListStyleType(), last(o.stacks[2]))
+		lst := e.style.GetListStyleType()
+		v := last(o.stacks[2])
+		if lst.Type == "" && lst.Name == "Kx" { // known by construction: cyclic "<" ">" with suffix "~"
+			return []string{"<", ">"}[((v-1)%2+2)%2] + "~"
+		}
+		if lst.Type == "" && lst.Name == "kx" { // undefined (names are case-sensitive): decimal
+			return strconv.Itoa(v) + ". "
+		}
+		return cs.RenderMarker(lst, v)
 	}
 	return "[" + dotted(o.stacks[0]) + "|" + dotted(o.stacks[1]) + "|" + dotted(o.stacks[2]) + "|" + strconv.Itoa(last(o.stacks[0])) + "|" + cs.RenderValue(last(o.stacks[1]), "lower-roman") + "]"
 }
